@@ -88,3 +88,31 @@ void inst_arch()
   auto p7 = &LAFEM::Arch::Mirror::gather_svb_generic<DT, IT>; (void)p7;
   auto p8 = &LAFEM::Arch::Mirror::scatter_svb_generic<DT, IT>; (void)p8;
 }
+
+// explicit uses of the ticket move operations and of the global min/max reductions
+template<typename Vec_>
+void inst_ticket_moves(Vec_& v, const Dist::Comm& comm, const std::vector<int>& ranks, const std::vector<Mir>& mirrors)
+{
+  Global::SynchVectorTicket<Vec_, Mir> a(v, comm, ranks, mirrors);
+  Global::SynchVectorTicket<Vec_, Mir> b(std::move(a));   // move constructor
+  Global::SynchVectorTicket<Vec_, Mir> c;
+  c = std::move(b);                                        // move assignment
+  c.wait();
+}
+
+template<typename Vec_>
+DT inst_vector_reductions(const Global::Vector<Vec_, Mir>& x)
+{
+  DT r = x.max_element() + x.min_element() + x.max_abs_element() + x.min_abs_element();
+  r += x.max_element_async().wait() + x.min_element_async().wait() + x.max_abs_element_async().wait() + x.min_abs_element_async().wait();
+  return r;
+}
+
+void inst_uses(VecS& vs, VecB& vb, const Dist::Comm& comm, const std::vector<int>& ranks, const std::vector<Mir>& mirrors,
+  const Global::Vector<VecS, Mir>& gs, const Global::Vector<VecB, Mir>& gb)
+{
+  inst_ticket_moves(vs, comm, ranks, mirrors);
+  inst_ticket_moves(vb, comm, ranks, mirrors);
+  (void)inst_vector_reductions(gs);
+  (void)inst_vector_reductions(gb);
+}
